@@ -114,6 +114,10 @@ def tlc(module, cfg, metadir, env=None, workers=4, timeout=1800, heap='4g', simu
     other than invariant violations (which are returned in .errors)."""
     e = dict(os.environ)
     e['JAVA_TOOL_OPTIONS'] = '-Xss1g -Dtlc2.tool.queue.IStateQueue=StateDeque'
+    # VERIF_MAX_HEAP=3g caps every TLC heap (for running many checks side by side, e.g. tools/mutant.sh batches)
+    cap = os.environ.get('VERIF_MAX_HEAP')
+    if cap and cap.endswith('g') and heap.endswith('g') and int(cap[:-1]) < int(heap[:-1]):
+        heap = cap
     if env:
         e.update({k: str(v) for k, v in env.items()})
     cmd = ['timeout', str(timeout), 'java', '-XX:+UseParallelGC', '-Xmx' + heap, '-cp', TLA_JAR, 'tlc2.TLC',
